@@ -77,6 +77,11 @@ def sym_listcomp(elt, it, cond):
     return GList(res) if guarded else [v for _, v in res]
 
 def sym_in(x, c):
+    from .symstr import SymStr
+    if isinstance(x, SymStr) and isinstance(c, str) and not isinstance(c, SymStr):
+        if any(ch.isdigit() for ch in c): raise Unsupported('substring test of a template string against digits')
+        return x.rep() in c
+    if isinstance(c, SymStr): return c.__contains__(x)
     if isinstance(c, SymSet): return c.contains(x)
     if isinstance(c, SymDict): return mkbool(c._lookup(x)[0])
     if isinstance(c, GList): return mkbool(z3.Or([z3.And(g, _keyeq(v, x)) for g, v in c.items]))
@@ -94,23 +99,29 @@ def sym_len(x):
     return builtins.len(x)
 class SymRange:
     def __init__(self, n): self.n = n
-def sym_range(*a):
-    if len(a) == 1 and isinstance(a[0], SymInt): return SymRange(a[0])
-    if any(isinstance(v, SymInt) for v in a):
-        c = core.CUR
-        return builtins.range(*[c.concretize_int(zi(v), limit = 64) if isinstance(v, SymInt) else v for v in a])
-    return builtins.range(*a)
+class _RangeMeta(type):
+    def __instancecheck__(cls, x): return isinstance(x, builtins.range)
+class sym_range(metaclass = _RangeMeta):
+    def __new__(cls, *a):
+        if len(a) == 1 and isinstance(a[0], SymInt): return SymRange(a[0])
+        if any(isinstance(v, SymInt) for v in a):
+            c = core.CUR
+            return builtins.range(*[c.concretize_int(zi(v), limit = 64) if isinstance(v, SymInt) else v for v in a])
+        return builtins.range(*a)
 class ZipGR:
     def __init__(self, triples): self.triples = triples
-def sym_zip(*a):
-    if len(a) == 2 and isinstance(a[0], GList) and isinstance(a[1], SymRange):
-        triples = []; cnt = z3.IntVal(0)
-        for g, v in a[0].items:
-            triples.append((g, v, SymInt(z3.simplify(cnt)))); cnt = cnt + z3.If(g, 1, 0)
-        return ZipGR(triples)
-    if len(a) == 2 and isinstance(a[1], GList) and isinstance(a[0], SymRange):
-        z = sym_zip(a[1], a[0]); return ZipGR([(g, i, v) for g, v, i in z.triples])
-    return builtins.zip(*a)
+class _ZipMeta(type):
+    def __instancecheck__(cls, x): return isinstance(x, builtins.zip)
+class sym_zip(metaclass = _ZipMeta):
+    def __new__(cls, *a):
+        if len(a) == 2 and isinstance(a[0], GList) and isinstance(a[1], SymRange):
+            triples = []; cnt = z3.IntVal(0)
+            for g, v in a[0].items:
+                triples.append((g, v, SymInt(z3.simplify(cnt)))); cnt = cnt + z3.If(g, 1, 0)
+            return ZipGR(triples)
+        if len(a) == 2 and isinstance(a[1], GList) and isinstance(a[0], SymRange):
+            z = sym_zip(a[1], a[0]); return ZipGR([(g, i, v) for g, v, i in z.triples])
+        return builtins.zip(*a)
 class _DictMeta(type):
     def __instancecheck__(cls, x): return isinstance(x, builtins.dict)
     def __subclasscheck__(cls, x): return issubclass(x, builtins.dict)
